@@ -195,7 +195,7 @@ func ruleT4(c *Ctx) *RuleResult {
 		gs := typeSwitches(ini, modPath+"/pkg/codecs", "Codec")
 		key := "clientTrackProcessorFMP4.initialize|nil-codec"
 		if len(gs) == 0 {
-			r.fail(key, c.Pos(ini.Pos()), FuncName(ini), "the payload-decoder switch exists", "no type switch over codecs.Codec")
+			r.undecided("%s: %s — %s (the construct this rule is anchored on was not found: no verdict)", key, "the payload-decoder switch exists", "no type switch over codecs.Codec")
 		} else {
 			g := gs[0]
 			cut := map[edge]bool{}
